@@ -19,6 +19,7 @@ class RecordLoop:
         self.aliases = self._aliases()          # local name -> (lo, hi) record slice
         self.atom_block = self._find_atom_block()
         self.state_vars = self._state_vars()
+        self.terminal_var = self._terminal_var()
 
     def _find_fn(self):
         fn = self.mod.funcs.get('get_atom_lines_from_pdb')
@@ -97,6 +98,15 @@ class RecordLoop:
                     if isinstance(t, ast.Name):
                         inside.add(t.id)
         return sorted(before & inside)
+
+    def _terminal_var(self):
+        """The loop-carried variable whose value is stored into
+        ``<atom>.terminal`` (role: terminus tag of the current record)."""
+        for node in walk_no_nested(self.loop):
+            if isinstance(node, ast.Assign) and isinstance(node.targets[0], ast.Attribute) \
+                    and node.targets[0].attr == 'terminal' and isinstance(node.value, ast.Name):
+                return node.value.id
+        raise AnalysisError('record loop: no `<atom>.terminal = <tag variable>` store found')
 
     def state_writes(self, root):
         """Assign/AugAssign statements under ``root`` that store a state var."""
